@@ -128,6 +128,8 @@ pub enum TOp {
   Peek,
   /// `unsubscribe()` on the subject itself (subject families only)
   UnsubSubject,
+  /// `retain()` followed by `len()` on the subject (plain subject family only)
+  Retain,
 }
 
 #[derive(Clone, Debug, PartialEq, Eq, Hash)]
@@ -268,6 +270,14 @@ pub fn run_scen(s: &Scen, seed: u64, strategy: Strategy) -> Outcome {
           TOp::Peek => {
             let v = Behavior::<V, E>::peek(&beh);
             log.mark(CALL + ti as u32, "peek", v.int());
+          }
+          TOp::Retain => {
+            if kind == Kind::Subject {
+              let mut h = hot[0].clone();
+              h.retain();
+              let n = rxrust::subject::SubjectSize::len(&h);
+              log.mark(CALL + ti as u32, "len", n as i64);
+            }
           }
         }
       }
@@ -1115,6 +1125,7 @@ fn script(r: &mut Rng, n_hot: usize, allow_sub: bool, allow_term: bool, max: usi
       2 if allow_sub => TOp::Subscribe,
       3 => TOp::Unsub(r.below(2)),
       4 if allow_sub && allow_term && r.chance(1, 2) => TOp::UnsubSubject,
+      5 if allow_sub && r.chance(1, 2) => TOp::Retain,
       _ => TOp::Next(r.below(n_hot)),
     })
     .collect()
@@ -1654,6 +1665,14 @@ pub fn run_scen_free_mode(s: &Scen, mode: u8, seed: u64) -> Outcome {
               _ => hot[0].clone().unsubscribe(),
             }
             log.mark(CALL + ti as u32, "term_ret", 99);
+          }
+          TOp::Retain => {
+            if kind == Kind::Subject {
+              let mut h = hot[0].clone();
+              h.retain();
+              let n = rxrust::subject::SubjectSize::len(&h);
+              log.mark(CALL + ti as u32, "len", n as i64);
+            }
           }
           TOp::Subscribe | TOp::Peek => {}
         }
